@@ -73,4 +73,22 @@ CHECKS = {
   "note": "Tolerance 1e-9 relative to the operands; results beyond the f64 range are not compared; one-side-unit-less addition is left open by the statement and only counted.",
   "ref": "DESIGN.md section 3 C16",
  },
+ "C07": {
+  "technique": "model-based property testing (proptest) against a reference evaluator written from the filter semantics, plus bounded exhaustive enumeration of small filters x small records",
+  "level": "Generated (filter, records) pairs with tags steered near the literals, evaluated by libhaystack (filter built through public node fields, and through the parser) and by a three-valued reference evaluator; grids through filter/filter_all; all filters of size <= 2 (size 3 over a reduced term set) against all 343 records of a 7-value universe are enumerated. Held on everything explored.",
+  "note": "Ordering of Numbers with different units is left open by the statement and only counted. ^symbol and relationship terms are covered by C13. Ref equality ignores dis; timestamps compare by instant.",
+  "ref": "DESIGN.md section 3 C07",
+ },
+ "C08": {
+  "technique": "round-trip property testing (proptest) between filter trees, libhaystack's printer and parser, and an independent reference printer with random legal spacing",
+  "level": "Generated filter trees: print-then-parse gives an equal tree (literals strictly), reference-printed text with arbitrary legal blanks/line breaks parses to exactly the tree (precedence, grouping, path end), second round stable, visitor order. Held on everything explored.",
+  "note": "Names exclude the keywords not/and/or/true/false. *== and relationship refs are compared by id after library printing (Display omits dis).",
+  "ref": "DESIGN.md section 3 C08",
+ },
+ "C09": {
+  "technique": "fuzzing by generation and mutation (proptest) with fuel oracle, child-process paren-depth ladder, and a call-budget resolver as deterministic non-termination oracle for evaluation",
+  "level": "Arbitrary bytes, operator soup, valid filters, every prefix, mutants, ref-chasing filters; paren ladder to 131072 in child processes (also through the C entry point); every parsed filter is printed and evaluated over cyclic ref graphs against the empty and the real defs namespace. Held on everything explored.",
+  "note": "Non-termination of evaluation is detected through the resolver's call budget (20000 calls), parse loops through fuel ticks in the lexers.",
+  "ref": "DESIGN.md section 3 C09",
+ },
 }
